@@ -1,6 +1,6 @@
 import math
 
-from cubed.array_api.data_type_functions import isdtype
+from cubed.array_api.data_type_functions import astype, isdtype
 from cubed.array_api.dtypes import (
     _integer_dtypes,
     _real_numeric_dtypes,
@@ -24,6 +24,9 @@ def cumulative_prod(x, /, *, axis=None, dtype=None, include_initial=False, devic
         fname="cumulative_prod",
         device=device,
     )
+    if x.dtype != dtype:
+        # products are formed in the requested dtype, not in the input's
+        x = astype(x, dtype)
     return scan(
         x,
         preop=nxp.prod,
@@ -60,6 +63,9 @@ def cumulative_sum(x, /, *, axis=None, dtype=None, include_initial=False, device
         fname="cumulative_sum",
         device=device,
     )
+    if x.dtype != dtype:
+        # sums are formed in the requested dtype, not in the input's
+        x = astype(x, dtype)
     return scan(
         x,
         preop=nxp.sum,
